@@ -41,7 +41,7 @@ def plan(tier, seed):
 def mandatory_bins(tier):
     b = ["hash_" + h for h in HASHES] + ["enc_" + e for e in ENCODINGS]
     b += ["digest_longer_than_order", "key_scalar_1", "key_scalar_n-1", "lib_sig_verified_by_openssl", "openssl_sig_verified_by_lib", "rfc6979_compared", "message_bit_flips", "signature_bit_flips",
-          "other_key", "forged_r_0", "forged_s_0", "forged_r_n", "forged_s_n", "forged_r_n_plus_1", "forged_2^k", "malformed_truncated", "malformed_extended", "malformed_retagged", "high_s_and_low_s", "verifying_key_with_precomputed_tables"]
+          "other_key", "forged_r_0", "forged_s_0", "forged_r_n", "forged_s_n", "forged_r_n_plus_1", "forged_2^k", "malformed_truncated", "malformed_extended", "malformed_retagged", "der_long_form_length", "high_s_and_low_s", "verifying_key_with_precomputed_tables"]
     return b
 
 
@@ -212,7 +212,8 @@ def run_shard(spec, ctx):
                         must_fail("message_bit", lambda: vk.verify(sig, bytes(m2), hashfunc=hf, sigdecode=sigdec), {"bit": bit})
                     ctx.bin("message_bit_flips")
                     flat = sig if not isinstance(sig, tuple) else sig[0] + sig[1]
-                    for bit in range(0, len(flat) * 8, step if len(flat) < 100 or not quick else 3):
+                    sstep = step if len(flat) < 100 or not quick else 3
+                    for bit in sorted(set(range(0, len(flat) * 8, sstep)) | (set(range(0, 64)) if ename.startswith("der") else set())):
                         f2 = bytearray(flat)
                         f2[bit // 8] ^= 1 << (bit % 8)
                         s2 = bytes(f2) if not isinstance(sig, tuple) else (bytes(f2[: len(sig[0])]), bytes(f2[len(sig[0]) :]))
@@ -241,6 +242,9 @@ def run_shard(spec, ctx):
                     if ename.startswith("der"):
                         variants += [("retagged", b"\x31" + flat[1:]), ("retagged", flat[:2] + b"\x03" + flat[3:]), ("retagged", flat[:1] + bytes((flat[1] + 1,)) + flat[2:]),
                                      ("retagged", b"\x30\x80" + flat[2:] + b"\x00\x00"), ("retagged", flat[:2] + b"\x02\x81" + flat[3:4] + flat[4:])]
+                        if flat[1] == 0x81:
+                            variants += [("extended", flat[:2] + bytes((flat[2] + 1,)) + flat[3:]), ("truncated", flat[:2] + bytes((flat[2] - 1,)) + flat[3:]), ("extended", flat[:2] + bytes((flat[2] + 1,)) + flat[3:] + b"\x00")]
+                            ctx.bin("der_long_form_length")
                 else:
                     variants += [("truncated", (sig[0][:-1], sig[1])), ("truncated", (sig[0],)), ("extended", (sig[0], sig[1] + b"\x00")), ("extended", (sig[0], sig[1], sig[1])), ("truncated", (b"", b""))]
                 for vname, bad in variants:
